@@ -235,6 +235,12 @@ def _sync_loop(ctx, f, loop, src_ok, rule, what):
         for c in ast.walk(loop):
             if isinstance(c, ast.Call) and is_self_call(c, "post_msg") and len(c.args) >= 2 and isinstance(c.args[1], ast.Call) and call_name(c.args[1]) == "SynchronizationMsg":
                 posts.append(c)
+        shared = [c for c in ast.walk(loop) if isinstance(c, ast.Call) and is_self_call(c, "post_msg") and len(c.args) >= 2 and norm(c.args[0]) == nv and not isinstance(c.args[1], ast.Call)]
+        if shared and not posts:
+            ctx.bad(rule, f"{what}: a fresh SynchronizationMsg per send", f, shared[0],
+                    f"`{norm(shared[0].args[1])}` is one object sent again and again: post_msg stamps the round on the object itself and in-process "
+                    "messages are passed by reference, so a synchronisation message still waiting in a neighbour's queue changes round under its feet")
+            return False
         ok = len(posts) == 1 and norm(posts[0].args[0]) == nv
         if ok:
             facts = {(norm(t), p) for t, p in facts_at(ff, posts[0])}
